@@ -61,4 +61,14 @@ def runSharedAccumulators : List Nat × List String → List (List (String × Li
     let r := checkMessagesFrom acc file
     r.2 ++ runSharedAccumulators r.1 rest
 
+/-! the colour decision (seeded change X1-b) -/
+
+/-- X1-b: `color = sys.stdout.isatty()` inside `Checker.tag` — the CURRENT `sys.stdout`: the StringIO of `check_file_s` when the
+    file is checked in a pool worker (never a tty), the real stdout otherwise (a tty iff the terminal was initialised) -/
+def colourOfProbe : Bool → Bool → Bool := fun terminal captured => terminal && !captured
+/-- `Tag.format(..., color=c)` reduced to one pair of escape sequences -/
+def renderEsc (c : Bool) (line : String) : String := if c then "\x1b[33m" ++ line ++ "\x1b[0m" else line
+/-- a file with one problem: prints one line -/
+def tagCheck : Unit → String → Prog String String := fun _ path => .done [path ++ ": tag"]
+
 end I18n.CliWitness
